@@ -269,3 +269,36 @@ func (r *Run) Settle(quiet, limit time.Duration, extra func() []Ev) {
 		evs[0].Do()
 	}
 }
+
+type simLinkState = simrt.LinkState
+
+// RunFor lets simulated time pass for d while delivering everything fairly
+// (no faults, no choices): keep-alives flow, timers fire, nothing is starved.
+func (r *Run) RunFor(d time.Duration) {
+	p := &NetPolicy{Whole: true}
+	deadline := time.Now().Add(d)
+	for time.Now().Before(deadline) {
+		synctest.Wait()
+		select {
+		case <-r.Net.Activity:
+		default:
+		}
+		r.Steps++
+		evs := r.NetEvents(p)
+		if len(evs) == 0 {
+			rem := time.Until(deadline)
+			if rem <= 0 {
+				return
+			}
+			t := time.NewTimer(rem)
+			select {
+			case <-r.Net.Activity:
+				t.Stop()
+			case <-t.C:
+				return
+			}
+			continue
+		}
+		evs[0].Do()
+	}
+}
